@@ -146,6 +146,15 @@ CODEC = ["C01", "C02", "C06", "C08", "C09", "C10", "C16", "C17", "C20"]
 
 # (id, properties that must stay at exit 0, edits)  -- behaviour-preserving refactors
 SILENT: List[Tuple[str, List[str], List[Any]]] = [
+    ("size-varint-threshold-chain", ["C09", "C16", "C10"], [(I, "    elif value < 0:\n        return 10\n    elif value == 0:\n        return 1\n    else:\n        return math.ceil(value.bit_length() / 7)\n", "    elif value < 0:\n        return 10\n    if value <= 0x7F:\n        return 1\n    if value <= 0x3FFF:\n        return 2\n    if value <= 0x1FFFFF:\n        return 3\n    if value <= 0xFFFFFFF:\n        return 4\n    if value <= 0x7FFFFFFFF:\n        return 5\n    if value <= 0x3FFFFFFFFFF:\n        return 6\n    if value <= 0x1FFFFFFFFFFFF:\n        return 7\n    if value <= 0xFFFFFFFFFFFFFF:\n        return 8\n    if value <= 0x7FFFFFFFFFFFFFFF:\n        return 9\n    return 10\n")]),
+    ("copy-continue-form", ["C07", "C14"], [(I, "            value = self.__raw_get(name)\n            if value is not PLACEHOLDER:\n                kwargs[name] = value\n", "            value = self.__raw_get(name)\n            if value is PLACEHOLDER:\n                continue\n            kwargs[name] = value\n")]),
+    ("include-default-oneof-if-form", ["C07", "C04", "C05", "C06"], [(I, "        return (\n            meta.group is not None and self._group_current.get(meta.group) == field_name\n        )", "        if meta.group is None:\n            return False\n        return self._group_current.get(meta.group) == field_name")]),
+    ("field-number-lt-one", ["C08", "C17"], [("all", I, "        if number == 0:\n            raise ValueError(\"Invalid field number 0.\")", "        if number < 1:\n            raise ValueError(\"Invalid field number 0.\")")]),
+    ("type-hints-localns-keyword", ["C13"], [(I, "        return get_type_hints(cls, module.__dict__, {})", "        return get_type_hints(cls, module.__dict__, localns={})")]),
+    ("traverse-prefix-first", ["C13", "C03"], [("src/betterproto/plugin/parser.py", "            item.name = next_prefix = f\"{prefix}_{item.name}\"\n", "            next_prefix = f\"{prefix}_{item.name}\"\n            item.name = next_prefix\n")]),
+    ("flush-count-in-two-steps", ["C12"], [("src/betterproto/grpc/util/async_channel.py", "            deadlocked_receivers = max(0, self._waiting_receivers - self._queue.qsize())\n            for _ in range(deadlocked_receivers):", "            deadlocked_receivers = self._waiting_receivers - self._queue.qsize()\n            for _ in range(max(deadlocked_receivers, 0)):")]),
+    ("enum-member-filter-slice", ["C20"], [("src/betterproto/enum.py", "            if not _is_descriptor(value) and not name.startswith(\"__\")", "            if not _is_descriptor(value) and name[:2] != \"__\"")]),
+    ("dump-serialize-empty-two-steps", ["C01", "C02", "C06", "C09"], [(I, "            serialize_empty = isinstance(value, Message) and value._serialized_on_wire\n\n            include_default_value_for_oneof = self._include_default_value_for_oneof(\n                field_name=field_name, meta=meta\n            )\n\n            if value == self._get_field_default(field_name) and not (\n                selected_in_group or serialize_empty or include_default_value_for_oneof\n            ):\n                # Default (zero) values are not serialized. Two exceptions are\n                # if this is the selected oneof item or if we know we have to\n                # serialize an empty message (i.e. zero value was explicitly\n                # set by the user).\n                continue\n\n            if isinstance(value, list):\n                if meta.proto_type in PACKED_TYPES:\n                    # Packed lists look like a length-delimited field. First,\n                    # preprocess/encode each value into a buffer and then\n                    # treat it like a field of raw bytes.\n                    buf = bytearray()\n                    for item in value:\n                        buf += _preprocess_single(meta.proto_type, \"\", item)\n                    stream.write(", "            serialize_empty = False\n            if isinstance(value, Message):\n                serialize_empty = value._serialized_on_wire\n\n            include_default_value_for_oneof = self._include_default_value_for_oneof(\n                field_name=field_name, meta=meta\n            )\n\n            if value == self._get_field_default(field_name) and not (\n                selected_in_group or serialize_empty or include_default_value_for_oneof\n            ):\n                # Default (zero) values are not serialized. Two exceptions are\n                # if this is the selected oneof item or if we know we have to\n                # serialize an empty message (i.e. zero value was explicitly\n                # set by the user).\n                continue\n\n            if isinstance(value, list):\n                if meta.proto_type in PACKED_TYPES:\n                    # Packed lists look like a length-delimited field. First,\n                    # preprocess/encode each value into a buffer and then\n                    # treat it like a field of raw bytes.\n                    buf = bytearray()\n                    for item in value:\n                        buf += _preprocess_single(meta.proto_type, \"\", item)\n                    stream.write(")]),
     ("enum-prefix-two-step", ["C03", "C19", "C05"], [(NM, "    if name.startswith(prefix) and name[len(prefix) :].strip(\"_\"):\n        name = name[len(prefix) :].strip(\"_\")", "    if name.startswith(prefix):\n        rest = name[len(prefix) :].strip(\"_\")\n        if rest:\n            name = rest")]),
     ("builtins-table-via-comprehension-var", ["C03", "C18"], [(MD, "        self.builtins_types = {\n            pythonize_field_name(f.name) for f in getattr(self.proto_obj, \"field\", [])\n        } & set(dir(builtins))\n", "        field_names = {\n            pythonize_field_name(f.name) for f in getattr(self.proto_obj, \"field\", [])\n        }\n        self.builtins_types = field_names.intersection(dir(builtins))\n")]),
     ("rename-local-from-dict", ["C04", "C05", "C19"], [("rename_local", I, "Message._from_dict_init", "sub_cls", "value_cls"), ("rename_local", I, "Message._from_dict_init", "init_kwargs", "kwargs")]),
@@ -231,6 +240,13 @@ def apply_edits(root: Path, edits: List[Any]) -> None:
             node = ast.parse(__import__("textwrap").dedent(fn_src)).body[0]
             first_body_line = a - 1 + node.body[0].lineno
             p.write_text("".join(lines[:first_body_line - 1]) + body + "".join(lines[b:]))
+        elif e[0] == "all":
+            _, rel, old, new = e
+            p = root / rel
+            s = p.read_text()
+            if s.count(old) < 1:
+                raise KeyError(f"{rel}: pattern does not occur: {old[:50]!r}")
+            p.write_text(s.replace(old, new))
         else:
             rel, old, new = e
             p = root / rel
@@ -267,7 +283,7 @@ def _run(job: Tuple[str, str, List[str], Any, Optional[str]]) -> Tuple[str, str,
             cm = cm_()
         with cm as root:
             # the variant must still be valid Python
-            for rel in {e[1] if e[0] in ("rename_local", "rewrite_func") else e[0] for e in (payload or [])}:
+            for rel in {e[1] if e[0] in ("rename_local", "rewrite_func", "all") else e[0] for e in (payload or [])}:
                 if rel.endswith(".py"):
                     ast.parse((root / rel).read_text())
             for p in props:
